@@ -1,6 +1,8 @@
 package main
 
 import (
+	"fmt"
+
 	"verifharness/internal/hx"
 	"verifharness/internal/rng"
 )
@@ -74,6 +76,23 @@ func generate(h *hx.H) {
 	for _, src := range corpusDocs {
 		src := src
 		emit(h, func(*rng.R) docCase { return docCase{W: w0, Src: src, Intent: "any", Tag: "corpus"} })
+	}
+	// the wrapper-chain matrix of SameResponseShape: chain i on Alpha against chain j on Beta under
+	// one response name, leaf and composite named type, both parent orders
+	for _, kind := range []string{"sc", "oc"} {
+		sub := ""
+		if kind == "oc" {
+			sub = "{__typename}"
+		}
+		for i := range shapeChains {
+			for j := range shapeChains {
+				src := fmt.Sprintf("{named{... on Alpha{x: %s%d%s} ... on Beta{x: %s%d%s}}}", kind, i, sub, kind, j, sub)
+				if (i+j)%2 == 1 {
+					src = fmt.Sprintf("{named{... on Beta{x: %s%d%s} ... on Alpha{x: %s%d%s}}}", kind, j, sub, kind, i, sub)
+				}
+				emit(h, func(*rng.R) docCase { return docCase{W: w0, Src: src, Intent: "any", Tag: "corpus-shape"} })
+			}
+		}
 	}
 	// feature gating: the same documents with and without the feature
 	var wGate, wPlain *world
